@@ -280,6 +280,10 @@ func (r *Run) record(sub string, desc any, descJSON []byte, res Result) bool {
 	if res.Class != "" {
 		s.Classes[res.Class]++
 	}
+	if res.Fail != "" && (strings.HasPrefix(res.Key, "hang") || strings.HasPrefix(res.Key, "slow")) {
+		// hangs make shrinking slow and may get the worker killed: log them at once
+		fmt.Fprintf(os.Stderr, "URGENT %s/%s key=%s desc=%s\n", r.Prop, sub, res.Key, descJSON)
+	}
 	if res.Fail != "" {
 		if k := r.IsKnown(sub, res.Key); k != nil {
 			s.Excluded++
@@ -441,6 +445,29 @@ func (r *Run) rapidSeed(sub string) uint64 {
 // Rapid drives a rapid property: gen draws a JSON-serialisable descriptor, eval
 // decides it. Failures are shrunk by rapid; the minimal descriptor becomes the
 // replay file.
+// confirmed re-evaluates a failure whose verdict depends on a wall-clock watchdog
+// or an allocation meter (keys hang*, slow*, alloc*): it is a violation only when it
+// fails the same way three times in a row; otherwise the case is counted as
+// inconclusive (a loaded machine, a GC cycle of a neighbour case) and not reported.
+func confirmed[D any](r *Run, sub string, eval func(D) Result, d D, res Result) Result {
+	if res.Fail == "" || !(strings.HasPrefix(res.Key, "hang") || strings.HasPrefix(res.Key, "slow") || strings.HasPrefix(res.Key, "alloc")) {
+		return res
+	}
+	for i := 0; i < 2; i++ {
+		again := Safe(eval, d)
+		if again.Fail == "" || again.Key != res.Key {
+			r.Note("%s: a %s verdict did not reproduce on re-evaluation and was not counted", sub, res.Key)
+			if again.Fail != "" {
+				return again
+			}
+			again.Class = "timing-verdict-not-reproduced"
+			again.NonTrivial = false
+			return again
+		}
+	}
+	return res
+}
+
 func Rapid[D any](r *Run, sub string, n N, gen func(*rapid.T) D, eval func(D) Result) {
 	if r.replay != nil {
 		replayOne(r, sub, eval)
@@ -470,7 +497,7 @@ func Rapid[D any](r *Run, sub string, n N, gen func(*rapid.T) D, eval func(D) Re
 				panic(fmt.Sprintf("descriptor not serialisable: %v", err))
 			}
 			r.writeSidecar(sub, dj)
-			res := Safe(eval, d)
+			res := confirmed(r, sub, eval, d, Safe(eval, d))
 			if r.record(sub, d, dj, res) {
 				lastFail.json, lastFail.res, lastFail.set = dj, res, true
 				rt.Fatalf("VIOLATION %s/%s key=%s: %s", r.Prop, sub, res.Key, res.Fail)
@@ -535,7 +562,7 @@ func Enum[D any](r *Run, sub string, exhaustive bool, enum func(yield func(D) bo
 		if err != nil {
 			panic(fmt.Sprintf("descriptor not serialisable: %v", err))
 		}
-		res := Safe(eval, d)
+		res := confirmed(r, sub, eval, d, Safe(eval, d))
 		if r.record(sub, d, dj, res) {
 			r.addViolation(sub, dj, res)
 			nviol++
@@ -561,7 +588,7 @@ func replayOne[D any](r *Run, sub string, eval func(D) Result) {
 	if err := json.Unmarshal(r.replay.Desc, &d); err != nil {
 		r.T.Fatalf("replay descriptor does not decode for %s: %v", sub, err)
 	}
-	res := Safe(eval, d)
+	res := confirmed(r, sub, eval, d, Safe(eval, d))
 	if res.Fail != "" {
 		fmt.Printf("REPLAY-RESULT violation key=%s msg=%s\n", res.Key, res.Fail)
 		r.mu.Lock()
@@ -587,7 +614,7 @@ func CheckWitness[D any](r *Run, sub string, eval func(D) Result) {
 		if err := json.Unmarshal(k.Witness, &d); err != nil {
 			r.T.Fatalf("known finding witness does not decode (%s): %v", k.Key, err)
 		}
-		res := Safe(eval, d)
+		res := confirmed(r, sub, eval, d, Safe(eval, d))
 		r.mu.Lock()
 		if res.Fail != "" && k.re.MatchString(res.Key) {
 			r.knownSeen["witness:"+k.Key]++
